@@ -128,6 +128,7 @@ func c15tile(r *h.Rand, idx uint64) maptile.Tile {
 
 func init() {
 	optsOrd := &gen.GeomOpts{Float: gen.FloatOrdinary, NilSlices: true, Empty: true, EmptyParts: true, RingBound: true}
+	optsTiny := &gen.GeomOpts{Float: func(r *h.Rand) float64 { return float64(r.Intn(4)) }, Empty: true, EmptyParts: true, RingBound: true, MaxLen: 6}
 
 	h.Register(&h.Monitor{
 		ID: "C15",
@@ -171,10 +172,15 @@ func init() {
 				Name: "project-geometry", Count: h.Fixed(10000, 500000),
 				Run: func(c *h.Ctx, idx uint64, r *h.Rand) {
 					g := optsOrd.Geometry(r, r.Intn(5))
+					if idx%3 == 0 {
+						g = optsTiny.Geometry(r, r.Intn(4)) // tiny integer grid: the image of a vertex is often the next vertex
+					}
 					projs := []struct {
 						name string
 						f    func(orb.Point) orb.Point
 					}{
+						{"shift (x+1, y+1)", func(p orb.Point) orb.Point { return orb.Point{p[0] + 1, p[1] + 1} }},
+						{"double (2x, 2y)", func(p orb.Point) orb.Point { return orb.Point{2 * p[0], 2 * p[1]} }},
 						{"tag (x+1000, 3y)", func(p orb.Point) orb.Point { return orb.Point{p[0] + 1000, 3 * p[1]} }},
 						{"axis reversing (-x, 100-y)", func(p orb.Point) orb.Point { return orb.Point{-p[0], 100 - p[1]} }},
 						{"swap (y, x)", func(p orb.Point) orb.Point { return orb.Point{p[1], p[0]} }},
@@ -266,6 +272,26 @@ func init() {
 						pts = append(pts, orb.Point{float64(r.Range(-e, 2*e-1)), float64(r.Range(-e, 2*e-1))})
 					}
 					c15pixels(c, tile, extent, pts, true)
+					// a layer set with different extents through the Layers wrappers: every layer keeps its own extent
+					e2 := uint32(256 << uint(r.Intn(6)))
+					mk := func(e uint32) (*mvt.Layer, orb.MultiPoint) {
+						var ps orb.MultiPoint
+						for i := 0; i < 12; i++ {
+							ps = append(ps, orb.Point{float64(r.Range(0, int(e)-1)), float64(r.Range(0, int(e)-1))})
+						}
+						return &mvt.Layer{Name: "l", Version: 2, Extent: e, Features: []*geojson.Feature{geojson.NewFeature(ps.Clone())}}, ps
+					}
+					la, pa := mk(extent)
+					lb, pb := mk(e2)
+					ls := mvt.Layers{la, lb}
+					if tile.Z >= 2 {
+						ls.ProjectToWGS84(tile)
+						ls.ProjectToTile(tile)
+						c.Evals(2 * (len(pa) + len(pb)))
+						if !orb.Equal(la.Features[0].Geometry, pa) || !orb.Equal(lb.Features[0].Geometry, pb) {
+							c.Fail("", "integer tile coordinates do not come back exactly through Layers.ProjectToWGS84 / Layers.ProjectToTile with layers of different extents", map[string]interface{}{"tile": sv(tile), "extents": []uint32{extent, e2}, "first_layer": sv(pa), "first_back": sv(la.Features[0].Geometry), "second_layer": sv(pb), "second_back": sv(lb.Features[0].Geometry)})
+						}
+					}
 					c.Nontrivial(h.Mix(uint64(tile.X), uint64(tile.Y), uint64(tile.Z), uint64(extent)))
 					c.Sample(map[string]interface{}{"tile": sv(tile), "extent": extent, "pixels": len(pts)})
 				},
